@@ -66,7 +66,7 @@ def configs():
 
 
 CFGS = configs()
-FRAMES = ["ego_notf", "ego_tf", "map1", "map2", "2d"]
+FRAMES = ["ego_notf", "ego_tf", "map1", "map2", "2d", "ego_emptytf"]
 
 
 def units(tier, seed):
@@ -105,6 +105,9 @@ def _mk(spec, frame, seed):
         return o, None, dict(spec, x=None, y=None)
     if frame == "ego_notf":
         return G.mk3d(spec), None, spec
+    if frame == "ego_emptytf":   # ego-frame objects with an empty transform table (what a frame built without transforms carries)
+        from perception_eval.common.dataset import FrameGroundTruth
+        return G.mk3d(spec), FrameGroundTruth(100, "0", [], transforms=None).transforms, spec
     ego = egos[1] if frame in ("ego_tf", "map1") else (egos[2] if frame == "map2" else egos[3])
     return G.mk3d(spec, "map" if frame.startswith("map") else "base_link", ego), G.transforms(ego), spec
 
